@@ -182,6 +182,10 @@ KERNELS = [
          params=[("uniset", "Opaque"), ("max_level", "Int")], ret="Tree", streams=True, fuel="fuelp", fuel_param=True, cls_ctor=True,
          node_attrs={"_n_args": "nodeArity"},
          opaque_fn={"uniset._random_functional": ("randFunctional", []), "uniset._random_terminal_or_ephemeral": ("randTerminal", [])}),
+    # ---- Tree.random_tree: a fair coin between the two initialisation methods, both called with the SAME depth bound
+    dict(name="Tree_random_tree", file="base/_tree.py", cls="Tree", func="random_tree",
+         params=[("uniset", "Opaque"), ("max_level", "Int")], ret="Tree", streams=True,
+         tree_ext_fn={"cls.full_growing_method": "fullFn", "cls.growing_method": "growFn"}),
     # ---- the donor strategies of differential evolution: straight-line vector arithmetic (translated over the ring Int: the
     #      float operations are read as ring operations) on rows chosen by random_sample, which is a parameter taking
     #      the call's actual arguments and the call's ordinal: `sample range_size quantity replace k`
@@ -297,7 +301,7 @@ LTY = {"Int": "Int", "Arr": "List Int", "Bool": "Bool", "Mat": "List (List Int)"
        "ArrSelf": "List (List Int)"}
 TREE_ATTR = {"_nodes": "nodes", "_n_args": "nargs"}
 DEFAULT = {"Int": "0", "Arr": "[]", "Bool": "false", "Mat": "[]"}
-RESERVED = ("randcFn", "randnFn", "lehmerFn", "parentFn", "tourFn", "flipFn", "fittestFn", "newProbaFn", "choiceFn", "linspaceFn", "selFn", "mutFn", "donorFn", "crossFn", "repairFn", "_", "shuffler", "grower", "sampler", "wsampler", "end", "at", "from", "to", "in", "do", "then", "fun", "match", "with", "open", "by", "s", "us", "ns", "fuel", "rolls", "max", "min", "hi0", "samples", "self", "self_nodes", "self_nargs", "log", "stops", "kb", "value_ext", "tree")
+RESERVED = ("fullFn", "growFn", "randcFn", "randnFn", "lehmerFn", "parentFn", "tourFn", "flipFn", "fittestFn", "newProbaFn", "choiceFn", "linspaceFn", "selFn", "mutFn", "donorFn", "crossFn", "repairFn", "_", "shuffler", "grower", "sampler", "wsampler", "end", "at", "from", "to", "in", "do", "then", "fun", "match", "with", "open", "by", "s", "us", "ns", "fuel", "rolls", "max", "min", "hi0", "samples", "self", "self_nodes", "self_nargs", "log", "stops", "kb", "value_ext", "tree")
 
 
 class NotRecognised(Exception):
